@@ -985,11 +985,12 @@ Proof.
     pose proof (hown_core _ _ _ _ E2 HO1) as HO2. pose proof HO2 as [Hc2 _].
     remember (h_nomem h1 || zeqb (r_status r) ARES_ENOMEM || zeqb ais ARES_ENOMEM) as nm eqn:Enm.
     apply safe_bind. eapply safe_get_host; [exact (inv_heap _ _ I2)|exact Hc2|]. rewrite <- Enm.
+    match goal with |- context [h_set_ai nodes v4 nm ?x h1] => remember x as nd eqn:End; clear End end.
     apply safe_bind. eapply safe_store; [exact (inv_heap _ _ I2)|exact Hc2|].
-    destruct (hown_store s2 o h1 (h_set_ai nodes v4 nm h1) I2 HO2 eq_refl Hz1) as [I3 [F3 HO3]].
-    assert (T3 : TokInv (store_st o (CHost (h_set_ai nodes v4 nm h1)) s2) (ctoks (h_cb h) ++ RC) RF).
+    destruct (hown_store s2 o h1 (h_set_ai nodes v4 nm nd h1) I2 HO2 eq_refl Hz1) as [I3 [F3 HO3]].
+    assert (T3 : TokInv (store_st o (CHost (h_set_ai nodes v4 nm nd h1)) s2) (ctoks (h_cb h) ++ RC) RF).
     { apply (tokinv_host_excl None s2 o h1); auto. }
-    set (h3 := h_set_ai nodes v4 nm h1) in *. set (s3 := store_st o (CHost h3) s2) in *.
+    set (h3 := h_set_ai nodes v4 nm nd h1) in *. set (s3 := store_st o (CHost h3) s2) in *.
     simpl negb. rewrite andb_false_r. apply safe_bind. apply safe_ret.
     assert (FinE : forall stx, safe (end_hquery cf f o stx) s3 (tpost RC RF)).
     { intros stx. apply (tp_end_hquery _ IH o stx s3 h3 RC RF I3 HO3). exact T3. }
@@ -1025,13 +1026,14 @@ Proof.
     destruct (shared_host _ _ _ Hs2) as [Hc2 _].
     remember (h_nomem h1 || zeqb (r_status r) ARES_ENOMEM || zeqb ais ARES_ENOMEM) as nm eqn:Enm.
     apply safe_bind. eapply safe_get_host; [exact (inv_heap _ _ I2)|exact Hc2|]. rewrite <- Enm.
+    match goal with |- context [h_set_ai nodes v4 nm ?x h1] => remember x as nd eqn:End; clear End end.
     apply safe_bind. eapply safe_store; [exact (inv_heap _ _ I2)|exact Hc2|].
-    destruct (store_host_shared_ok None s2 o h1 (h_set_ai nodes v4 nm h1) (dg None) I2 Hs2 eq_refl Hp1) as [I3 [F3 _]].
+    destruct (store_host_shared_ok None s2 o h1 (h_set_ai nodes v4 nm nd h1) (dg None) I2 Hs2 eq_refl Hp1) as [I3 [F3 _]].
     { simpl. lia. } { intros; reflexivity. }
     { simpl. pose proof (hi_cnt _ (inv_hosts _ _ I2) _ _ Hs2). lia. }
-    assert (T3 : TokInv (store_st o (CHost (h_set_ai nodes v4 nm h1)) s2) RC RF).
+    assert (T3 : TokInv (store_st o (CHost (h_set_ai nodes v4 nm nd h1)) s2) RC RF).
     { apply (tokinv_host_shared None s2 o h1); auto. }
-    set (s3 := store_st o (CHost (h_set_ai nodes v4 nm h1)) s2) in *.
+    set (s3 := store_st o (CHost (h_set_ai nodes v4 nm nd h1)) s2) in *.
     simpl negb.
     apply safe_bind.
     + match goal with |- context [if ?b then _ else ret tt] => destruct b end.
